@@ -26,6 +26,7 @@ type Plan struct {
 	TornNum       int      `json:"torn_num"`
 	TornDen       int      `json:"torn_den"`
 	Log           string   `json:"log"`
+	Ambient       int      `json:"ambient"`
 }
 
 func init() {
@@ -57,6 +58,8 @@ func init() {
 	verifhook.ResetRun(tape.NewReplay(p.Tape), active)
 	verifhook.Clock = verifhook.Clock.Add(time.Duration(p.ClockOffsetNs))
 	simos.CLIMode = true
+	simos.Ambient = p.Ambient
+	verifhook.Ambient = p.Ambient
 	simos.Reset(p.FaultAt, p.Kind, p.TornNum, p.TornDen)
 	if p.Log != "" {
 		lf, err := os.OpenFile(p.Log, os.O_CREATE|os.O_WRONLY|os.O_APPEND, 0o644)
